@@ -117,8 +117,8 @@ def dump (env : Env) (md : List (PyVal × PyVal)) (validate : Bool) : Except Err
   | .error e => .error e
   | .ok v => if small env.lim v then .ok (ser v) else .error .metainfo
 
-/-- the bytes `Torrent.infohash` feeds to SHA-1 (no `_infohash` fallback: torrents not created
-    from a magnet link) -/
+/-- the bytes `Torrent.infohash` feeds to SHA-1: the `try` block of lines 1022-1031 (the handler
+    that falls back to a stored `_infohash` is `infohashOf` below) -/
 def infoBytes (env : Env) (md : List (PyVal × PyVal)) : Except Err Bytes :=
   if !env.validate (.dict (ensureInfo md)) then .error .metainfo else
   match PyVal.lookupStr "info" (ensureInfo md) with
@@ -128,7 +128,8 @@ def infoBytes (env : Env) (md : List (PyVal × PyVal)) : Except Err Bytes :=
     | .ok v => if small env.lim v then .ok (ser v) else .error .metainfo
   | _ => .error .metainfo     -- unreachable when validate accepts; kept total
 
-/-- `Torrent.infohash` = `sha1(...).hexdigest()` -/
+/-- `Torrent.infohash` = `sha1(...).hexdigest()` of an object without `_infohash` (= the `try`
+    block; every error it produces is a `MetainfoError`) -/
 def infohash (env : Env) (H : Bytes → Bytes) (md : List (PyVal × PyVal)) : Except Err Bytes :=
   match infoBytes env md with
   | .ok ib => .ok (Base32.hexLower (H ib))
@@ -165,5 +166,86 @@ def magnetXtOf (env : Env) (H : Bytes → Bytes) (md : List (PyVal × PyVal)) : 
   match infohash env H md with
   | .ok h => magnetXt (urnBtih ++ h)
   | .error e => .error e
+
+/-! ### the explicitly stored hash `Torrent._infohash`
+
+  `Magnet.torrent()` (torf/_magnet.py:253-269) stores the magnet link's hash on the new object
+  when no metadata was downloaded; nothing ever clears it.  `Torrent.infohash`
+  (torf/_torrent.py:1015-1038) consults it *only* in the handler of a `MetainfoError` raised by the
+  calculation:
+
+      try:
+          self.validate()
+          try:    info = encode_dict(metainfo['info']); info_enc = bencode.encode(info)
+          except (ValueError, RecursionError) as e:  raise MetainfoError(e)
+          else:   return sha1(info_enc).hexdigest()
+      except MetainfoError as e:
+          try:    return self._infohash
+          except AttributeError:  raise e
+-/
+
+/-- `Torrent.infohash` of an object whose attribute `_infohash` is `explicit` (`none`: the attribute
+    does not exist).  The `try` block is `infohash` above (validate, convert, encode, hash). -/
+def infohashOf (env : Env) (H : Bytes → Bytes) (md : List (PyVal × PyVal)) (explicit : Option Bytes) :
+    Except Err Bytes :=
+  match infohash env H md with
+  | .ok h => .ok h                              -- `else: return hashlib.sha1(info_enc).hexdigest()`
+  | .error .metainfo =>                          -- `except error.MetainfoError as e:`
+    match explicit with
+    | some x => .ok x                            --   `return self._infohash`
+    | none => .error .metainfo                   --   `except AttributeError: raise e`
+  | .error e => .error e                         -- any other exception is not handled
+
+/-- `Torrent.infohash_base32` on such an object -/
+def infohashBase32Of (env : Env) (H : Bytes → Bytes) (md : List (PyVal × PyVal))
+    (explicit : Option Bytes) : Except Err Bytes :=
+  match infohashOf env H md explicit with
+  | .ok h =>
+    match Base32.b16decode (Base32.upper h) with
+    | some d => .ok (Base32.b32encode d)
+    | none => .error .value                      -- binascii.Error: the stored string is no base 16
+  | .error e => .error e
+
+/-- `Torrent.magnet().xt` on such an object -/
+def magnetXtOfE (env : Env) (H : Bytes → Bytes) (md : List (PyVal × PyVal))
+    (explicit : Option Bytes) : Except Err Bytes :=
+  match infohashOf env H md explicit with
+  | .ok h => magnetXt (urnBtih ++ h)
+  | .error e => .error e
+
+/-- the part of a `Torrent` object that the exports read: `_metainfo` and `_infohash` -/
+structure Obj where
+  md : List (PyVal × PyVal)
+  explicit : Option Bytes
+
+/-- `Magnet.torrent()`, lines 265-268: `adopted` = the magnet holds downloaded metadata (`_info`,
+    then `metainfo['info'] = self._info` and no `_infohash`), otherwise
+    `torrent._infohash = self._infohash_as_base16()`.  `md` is the metainfo of the new object
+    (name, trackers, webseeds, length and — if adopted — the info dictionary). -/
+def ofMagnet (md : List (PyVal × PyVal)) (adopted : Bool) (base16 : Bytes) : Obj :=
+  if adopted then { md := md, explicit := none } else { md := md, explicit := some base16 }
+
+/-- what can happen to the object between two exports -/
+inductive Step where
+  /-- any number of assignments to `metainfo`, attribute setters, `generate()`, …: the metainfo
+      afterwards is `md`.  No code of the library assigns or deletes `_infohash`. -/
+  | mutate (md : List (PyVal × PyVal))
+  /-- `t = t.copy()` (torf/_torrent.py:1704-1709): a new object with a deep copy of `_metainfo`;
+      `_infohash` is not carried over -/
+  | copy
+
+def Obj.step (o : Obj) : Step → Obj
+  | .mutate md => { o with md := md }
+  | .copy => { md := o.md, explicit := none }
+
+def Obj.run (o : Obj) (steps : List Step) : Obj := steps.foldl Obj.step o
+
+/-- the three reports of an object -/
+def Obj.infohash (env : Env) (H : Bytes → Bytes) (o : Obj) : Except Err Bytes :=
+  infohashOf env H o.md o.explicit
+def Obj.infohashBase32 (env : Env) (H : Bytes → Bytes) (o : Obj) : Except Err Bytes :=
+  infohashBase32Of env H o.md o.explicit
+def Obj.magnetXt (env : Env) (H : Bytes → Bytes) (o : Obj) : Except Err Bytes :=
+  magnetXtOfE env H o.md o.explicit
 
 end Torf.ReadStream
